@@ -48,8 +48,14 @@ def case_strategy(draw):
             'decl': draw(st.sampled_from([None, None, 'impl', 'impl',
                                           'only'])),
             'ifaces': draw(st.lists(st.integers(0, nI - 1), max_size=2))})
+    # 'factory': the instance is itself declared as a factory
+    # (implementer(I)(ob) on a callable instance stores a specification in
+    # the instance's own __dict__): that says what calling it yields, not
+    # what it or a super proxy of it provides (seed C19g)
     insts = [{'cls': draw(IDX), 'direct': draw(st.lists(
-        st.integers(0, nI - 1), max_size=2))}
+        st.integers(0, nI - 1), max_size=2)),
+        'factory': draw(st.one_of(st.none(), st.none(), st.lists(
+            st.integers(0, nI - 1), max_size=2)))}
         for _ in range(draw(st.integers(1, 3)))]
     regs = [[draw(st.one_of(st.none(), st.integers(0, nI - 1))),
              draw(st.sampled_from(['', '', 'n'])), draw(st.booleans())]
@@ -124,7 +130,8 @@ def run_case(case, cfg, out):
         cl['may'] |= add_may
 
     for c, spec in enumerate(case['classes']):
-        cls, kept = make_class('K%d' % c, [classes[b] for b in spec['bases']])
+        cls, kept = make_class('K%d' % c, [classes[b] for b in spec['bases']],
+                               {'__call__': lambda self: None})
         if kept != len(spec['bases']):
             out.adjusted += 1
         classes.append(cls)
@@ -144,6 +151,10 @@ def run_case(case, cfg, out):
         ob = classes[c]()
         if spec['direct']:
             directlyProvides(ob, *[ifaces[i] for i in spec['direct']])
+        if spec.get('factory') is not None:
+            from zope.interface import implementer
+            implementer(*[ifaces[i] for i in spec['factory']])(ob)
+            out.tag('instance_declared_as_factory')
         insts.append((ob, c))
     cidx = {cls: c for c, cls in enumerate(classes)}
 
